@@ -77,6 +77,14 @@ static Json::Value gen() {
     tick["ops"] = ops;
     ticks.append(tick);
     scripts["detectors"]["d0"].append("C");
+    // the action after the kill plugin sometimes stops the chain itself
+    {
+      Json::Value a(Json::objectValue);
+      bool stop = P(35);
+      a["r"] = stop ? "S" : "C";
+      if (stop && P(50)) a["pause"] = R(0, 20);
+      scripts["actions"]["after0"].append(a);
+    }
   }
   sc["ticks"] = ticks;
   sc["scripts"] = scripts;
@@ -101,9 +109,14 @@ static Verdict run(const Json::Value& sc) {
   int64_t d = (da >= 0 ? da : dr >= 0 ? dr : 15) * 1000LL;
   auto invs = segment(R);
   int nticks = sc["ticks"].size();
-  // per tick: did a chain start (pre0 ran)? did the kill action STOP, and when?
-  std::vector<bool> started(nticks, false);
-  std::vector<int64_t> stopAt(nticks, -1);
+  // per tick: did a chain start (pre0 ran)? did the chain end this tick, with
+  // or without a STOP, when, and with which delay?
+  std::vector<bool> started(nticks, false), endedNoStop(nticks, false);
+  std::vector<int64_t> stopAt(nticks, -1), stopDelay(nticks, 0);
+  std::vector<int64_t> afterAt(nticks, -1);
+  for (auto& e : R.trace)
+    if (e.k == "plugin" && e.s == "run" && e.s2 == "after0" && e.tick >= 0 && e.tick < nticks) afterAt[e.tick] = e.t_ms;
+  int64_t dRuleset = (dr >= 0 ? dr : 15) * 1000LL;
   for (auto& inv : invs) {
     if (inv.tick < 0 || inv.tick >= nticks) continue;
     if (inv.pre_ran) started[inv.tick] = true;
@@ -117,15 +130,35 @@ static Verdict run(const Json::Value& sc) {
       int64_t t = R.tick_ms[inv.tick];
       for (auto* e : inv.all) t = std::max(t, e->t_ms);
       stopAt[inv.tick] = t;
+      stopDelay[inv.tick] = d;
+    } else if (inv.after_ran) {
+      // the chain reached the scripted action: it decides
+      const Json::Value& sa = sc["scripts"]["actions"]["after0"][inv.tick];
+      if (sa.get("r", "C").asString() == "S") {
+        stopAt[inv.tick] = afterAt[inv.tick];
+        int p = sa.get("pause", -1).asInt();
+        stopDelay[inv.tick] = p >= 0 ? p * 1000LL : dRuleset;
+        if (killed) v.labels.push_back("later_action_stops_after_always_continue_kill");
+      } else {
+        endedNoStop[inv.tick] = true;
+      }
     }
   }
   bool sawStop = false, afterAsync = false;
   for (int t = 0; t < nticks && v.ok; t++) {
+    if (endedNoStop[t] && t + 1 < nticks) {
+      // no STOP, no pause: the detector fires, so the next tick starts a chain
+      bool paused = false;
+      for (int u = 0; u < t; u++)
+        if (stopAt[u] >= 0 && R.tick_ms[t + 1] < stopAt[u] + stopDelay[u]) paused = true;
+      if (!paused && !started[t + 1]) v.fail("the chain of tick " + std::to_string(t) + " ended without any STOP, yet no chain started at tick " + std::to_string(t + 1) + " although the detector fired");
+    }
     if (stopAt[t] < 0) continue;
     sawStop = true;
     if (!started[t]) afterAsync = true; // the chain was fired on an earlier tick
-    int64_t until = stopAt[t] + d;
-    std::string at = "kill action stopped at tick " + std::to_string(t) + " (t=" + std::to_string(stopAt[t]) + "ms), delay " + std::to_string(d / 1000) + "s (plugin " + std::to_string(da) + ", ruleset " + std::to_string(dr) + "): ";
+    int64_t dd = stopDelay[t];
+    int64_t until = stopAt[t] + dd;
+    std::string at = "chain stopped at tick " + std::to_string(t) + " (t=" + std::to_string(stopAt[t]) + "ms), delay " + std::to_string(dd / 1000) + "s (kill plugin " + std::to_string(da) + ", ruleset " + std::to_string(dr) + "): ";
     for (int u = t + 1; u < nticks; u++) {
       if (R.tick_ms[u] < until) {
         if (started[u]) {
